@@ -212,6 +212,25 @@ def run(chk, prog, tier):
         chk.require(fn in growers or any(callee_name(c) == "mmap" and _flows_to_buffer(prog, lib[fn], c) for c in walk(prog.body(lib[fn])) if c.get("kind") == "CallExpr"),
                     "GROW", "GROW/writer/%s" % fn, loc_str(lib[fn]), "only creation and the growth routine assign <instance>->buffer", fn)
     chk.floor("growth routines", len(growers) + len([w for w in buffer_writers if w not in growers]), 1)
+    # an assignment of the whole instance (`*al = saved`, memcpy(al, ...)) assigns buffer and buffer_len too: after a growth in
+    # between it brings back a mapping that no longer exists
+    for fn, f in sorted(lib.items()):
+        if fn in creator_names or any(callee_name(c) == "free" for c in walk(prog.body(f)) if c.get("kind") == "CallExpr"):
+            continue
+        for m in walk(prog.body(f)):
+            tgt = None
+            if m.get("kind") == "BinaryOperator" and m.get("opcode") == "=" and qtype(strip(kids(m)[0])).replace("const ", "") in ("struct assemblyline",):
+                tgt = kids(m)[0]
+            elif m.get("kind") == "CallExpr" and callee_name(m) in ("memcpy", "memmove", "memset", "__builtin_memcpy") and call_args(m):
+                a0 = strip(call_args(m)[0], casts=True)
+                if qtype(a0) in ("assemblyline_t", "struct assemblyline *") and a0.get("kind") == "DeclRefExpr":
+                    tgt = a0
+            if tgt is not None:
+                chk.bad("GROW", "GROW/whole/%s@%s" % (fn, loc_str(m)), loc_str(m), "only creation and the growth routine assign <instance>->buffer",
+                        "%s assigns the whole instance, buffer and buffer_len included: %s" % (fn, expr_str(m)[:80]))
+    # the fields the growth protocol reads are initialised by creation on every successful path
+    from checks import C15
+    C15.init_rule(chk, prog, ["buffer", "buffer_len", "external", "offset"], rule="INIT", what="buffer, buffer_len, external and offset")
     for fn in growers:
         f = lib[fn]
         inst = prog.params(f)[0]["name"]
